@@ -164,7 +164,10 @@ func runRespSeq(tw *traceWriter, calls []string, pretty bool, coding string, bud
 }
 
 // the same laws observed by a trailing filter through real Dispatch
-func runRespDispatch(tw *traceWriter, calls []string, coding string) {
+type wrappingWriter struct{ http.ResponseWriter }
+
+// mw: an http middleware that wraps the ResponseWriter sits between the observing filter and the handler
+func runRespDispatch(tw *traceWriter, calls []string, coding string, mw bool) {
 	c := restful.NewContainer()
 	c.EnableContentEncoding(coding != "")
 	var sc, cl int
@@ -172,6 +175,11 @@ func runRespDispatch(tw *traceWriter, calls []string, coding string) {
 		chain.ProcessFilter(req, resp)
 		sc, cl = resp.StatusCode(), resp.ContentLength()
 	})
+	if mw {
+		c.Filter(restful.HttpMiddlewareHandlerToFilter(func(next http.Handler) http.Handler {
+			return http.HandlerFunc(func(w http.ResponseWriter, r *http.Request) { next.ServeHTTP(wrappingWriter{w}, r) })
+		}))
+	}
 	ws := new(restful.WebService).Path("/r")
 	ws.Route(ws.GET("/x").To(func(req *restful.Request, resp *restful.Response) {
 		for _, name := range calls {
@@ -187,7 +195,7 @@ func runRespDispatch(tw *traceWriter, calls []string, coding string) {
 	if !ok {
 		n = -1
 	}
-	tw.emit(map[string]interface{}{"e": "rcase", "calls": calls, "pretty": restful.PrettyPrintResponses, "coding": coding, "budget": -1, "via": "dispatch"})
+	tw.emit(map[string]interface{}{"e": "rcase", "calls": calls, "pretty": restful.PrettyPrintResponses, "coding": coding, "budget": -1, "via": "dispatch", "mw": mw})
 	tw.emit(map[string]interface{}{"e": "rret", "name": "trailing-filter", "hasErr": false, "err": false, "panic": "",
 		"sc": sc, "cl": cl, "uStatus": rec.Code, "uBytes": n, "failed": false, "coding": ""})
 }
@@ -232,8 +240,9 @@ func runResp(planPath, outPath string, seed int64) {
 				runRespSeq(tw, cs.Calls, pretty, coding, -1)
 			}
 			restful.PrettyPrintResponses = pretty
-			runRespDispatch(tw, cs.Calls, "")
-			runRespDispatch(tw, cs.Calls, "gzip")
+			runRespDispatch(tw, cs.Calls, "", false)
+			runRespDispatch(tw, cs.Calls, "gzip", false)
+			runRespDispatch(tw, cs.Calls, "", true)
 		}
 	}
 }
